@@ -83,7 +83,7 @@ def run(ctx, model=True):
         for sig, what in oracle(sc, o):
             res.violations.append(C.Violation("async-pause-hook:" + sig, "implementation-only probe (async pause hook): " + what, sc))
     res.notes.append(f"{len(probes)} implementation-only probes with an async Pausable.pause() hook (a suspension point of _run that the Lean model does not have)")
-    FP.run_probes(ctx, res, PROBE_JUDGES, ["close", "teardown-request", "leftover-stage", "pause-hook"], 20, 400)
+    FP.run_probes(ctx, res, PROBE_JUDGES, ["close", "teardown-request", "leftover-stage", "pause-hook", "async-stop"], 20, 400)
     RP.add_to(res, ["raising-state-hook"])
     return res
 
